@@ -412,7 +412,14 @@ def iterjoin(left, right, lkey, rkey, leftouter=False, rightouter=False,
 
         # pick off initial row groups
         lkval, lrowgrp = next(lgit)
-        rkval, rrowgrp = next(rgit)
+        try:
+            rkval, rrowgrp = next(rgit)
+        except StopIteration:
+            # right table has no rows: the first left group has not been
+            # compared with anything, so hand it back to the iterator
+            lgit = itertools.chain([(lkval, lrowgrp)], lgit)
+            lkval = rkval
+            raise
 
         while True:
             if lkval < rkval:
@@ -627,7 +634,14 @@ def iterantijoin(left, right, lkey, rkey):
 
         # pick off initial row groups
         lkval, lrowgrp = next(lgit)
-        rkval, _ = next(rgit)
+        try:
+            rkval, _ = next(rgit)
+        except StopIteration:
+            # right table has no rows: the first left group has not been
+            # compared with anything, so hand it back to the iterator
+            lgit = itertools.chain([(lkval, lrowgrp)], lgit)
+            lkval = rkval
+            raise
 
         while True:
             if lkval < rkval:
@@ -791,7 +805,14 @@ def iterlookupjoin(left, right, lkey, rkey, missing=None, lprefix=None,
 
         # pick off initial row groups
         lkval, lrowgrp = next(lgit)
-        rkval, rrowgrp = next(rgit)
+        try:
+            rkval, rrowgrp = next(rgit)
+        except StopIteration:
+            # right table has no rows: the first left group has not been
+            # compared with anything, so hand it back to the iterator
+            lgit = itertools.chain([(lkval, lrowgrp)], lgit)
+            lkval = rkval
+            raise
 
         while True:
             if lkval < rkval:
